@@ -1,9 +1,10 @@
 (* C04 -- Every binding is embedded, generated, or diagnosed; errors write nothing.  ONLY property theorems here.
    The theorems are about model/Uigen.v (the routing of every binding of an object to the pass that owns it); the model is
    compared with the real outputs binding by binding on every run.  The "errors write nothing" half is a fact about
-   src/main.rs and the file system: it is checked on the real command (and modelled under C15), not proved here. *)
+   src/main.rs and the file system: the loop over the source arguments is model/Driver.v (theorems at the end of this file), the writing of one
+   source's outputs is modelled under C15; both are compared with the real command. *)
 From Coq Require Import Permutation.
-From QV Require Import model.Base gen.GenUigen model.Uigen proofs.UigenProofs.
+From QV Require Import model.Base gen.GenUigen model.Uigen proofs.UigenProofs model.Driver proofs.DriverProofs.
 Open Scope string_scope.
 
 (* the outputs consist exactly of what the per-binding fate functions say: nothing else is written, nothing is lost *)
@@ -56,3 +57,21 @@ Example C04_ex :
   accepted (run Generate {| o_kind := OWidget false false false; o_ctx := CtxVBox; o_props := [PExpr (L "hasSelectedText" false true true true)];
                             o_callbacks := []; o_attached := [] |}) = false.
 Proof. vm_compute. repeat split; reflexivity. Qed.
+
+(* ---- errors make the command fail and write nothing (src/main.rs generate_ui: `for p in sources { generate_ui_file(..)? }`), for EVERY list of sources ----
+   the exit status is 0 exactly when no source has errors; what is written are the outputs of the sources in front of the first one with errors -- so an error in
+   any position fails the command, and nothing of the faulty source (nor of a later one) is created or modified *)
+Theorem C04_exit_status_zero_iff_no_source_has_errors : forall (out : Type) (vs : list (verdict out)),
+  snd (run_sources out vs) = negb (List.existsb (is_error out) vs).
+Proof. exact exit_status_spec. Qed.
+Print Assumptions C04_exit_status_zero_iff_no_source_has_errors.
+Theorem C04_an_error_in_any_source_fails_the_command : forall (out : Type) (a b : list (verdict out)), snd (run_sources out (a ++ HasErrors :: b)) = false.
+Proof. exact any_error_fails. Qed.
+Print Assumptions C04_an_error_in_any_source_fails_the_command.
+Theorem C04_nothing_is_written_from_the_faulty_source_on : forall (out : Type) (a b : list (verdict out)),
+  fst (run_sources out (a ++ HasErrors :: b)) = outputs_before_first_error out a.
+Proof. exact nothing_written_from_the_error_on. Qed.
+Print Assumptions C04_nothing_is_written_from_the_faulty_source_on.
+Theorem C04_accepted_sources_are_all_written : forall (out : Type) (os : list out), run_sources out (List.map Translated os) = (os, true).
+Proof. exact all_translated_all_written. Qed.
+Print Assumptions C04_accepted_sources_are_all_written.
